@@ -1224,11 +1224,26 @@ class Frame(object):
     def e_Constant(self, e):
         return e.value
 
+    def _elts(self, elts):
+        out = []
+        for x in elts:
+            if isinstance(x, ast.Starred):
+                v = self.expr(x.value)
+                if isinstance(v, AList) and not v.generic:
+                    out.extend(v.items)
+                elif isinstance(v, (list, tuple)):
+                    out.extend(v)
+                else:
+                    self.unsupported(x, "unpacking of %r into a sequence display" % (v,))
+            else:
+                out.append(self.expr(x))
+        return out
+
     def e_Tuple(self, e):
-        return tuple(self.expr(x) for x in e.elts)
+        return tuple(self._elts(e.elts))
 
     def e_List(self, e):
-        return AList([self.expr(x) for x in e.elts], self.I.loop_depth, origin="L%d" % e.lineno)
+        return AList(self._elts(e.elts), self.I.loop_depth, origin="L%d" % e.lineno)
 
     def e_Dict(self, e):
         d = {}
@@ -2074,6 +2089,16 @@ def lib_call_method(fr: Frame, bm: BoundMethod, args, kwargs, node):
             raise RaiseSig(AExc("KeyError", [args[0]], {}))
         if name in ("items", "keys", "values"):
             return list(getattr(t, name)())
+        if name == "update":
+            for a in args:
+                if isinstance(a, dict):
+                    t.update(a)
+                else:
+                    fr.unsupported(node, "dict.update with %r" % (a,))
+            t.update(kwargs)
+            return None
+        if name == "copy" and not args:
+            return dict(t)
     if bm.kind == "alist":
         if name == "append":
             t.items.append(args[0])
